@@ -62,6 +62,9 @@ def run(ctx, gen_status):
         for kind in ['single', 'pair', 'scalar_label', 'triple']:
             loader.append({'N': L * r.choice([1, 2]) if L < 40 else L, 'bs': 1 if L >= 40 else r.choice([1, 2]), 'kind': kind, 'seed': r.randint(0, 999)})
     loader = [c for c in loader if c['N'] <= 240]
+    # the original loader drops its last incomplete batch: the private loader has len(original) batches, rate 1/len(original)
+    for N, bs in ((50, 8), (23, 5), (10, 3), (9, 4)):
+        loader.append({'N': N, 'bs': bs, 'kind': 'single', 'seed': r.randint(0, 999), 'drop_last': True})
     for c in loader:
         if r.random() < 0.4:
             c['abandon'] = r.randint(2, 4)
